@@ -10,9 +10,11 @@ use crate::{
     scen::actor::ActorScen,
     scen::crash::Crash,
     scen::docs::{Docs, Mode as DocsMode},
+    scen::events::Events,
     scen::forge::Forge,
     scen::pair::{Mode as PairMode, Pair},
     scen::query::QueryScen,
+    scen::session::Session,
 };
 
 fn batch<S: Scenario>(s: &S, tier: Tier, seed: u64, quick_runs: u64, thorough_runs: u64, scale: f64) -> BatchOut {
@@ -45,6 +47,8 @@ pub fn run_property(prop: &str, tier: Tier, seed: u64, scale: f64) -> i32 {
             vec![batch(&Crash, tier, seed, 1_500, 20_000, scale)]
         }
         "C07" => vec![batch(&Docs { mode: DocsMode::Cap }, tier, seed, 40_000, 1_000_000, scale)],
+        "C10" => vec![batch(&Session, tier, seed, 30_000, 800_000, scale)],
+        "C12" => vec![batch(&Events, tier, seed, 30_000, 800_000, scale)],
         "C14" => vec![batch(&ActorScen, tier, seed, 30_000, 800_000, scale)],
         "C15" => vec![batch(&Docs { mode: DocsMode::Policy }, tier, seed, 40_000, 1_000_000, scale)],
         "C16" => vec![batch(&Docs { mode: DocsMode::Remove }, tier, seed, 30_000, 800_000, scale)],
@@ -68,7 +72,9 @@ fn replay_dispatch(prop: &str, scenario: &str, plan: Value) -> Result<(Option<cr
     match (prop, scenario) {
         (_, "offer") => replay_plan(&Offer { mode: OfferMode::State }, plan),
         (_, "offer-heads") => replay_plan(&Offer { mode: OfferMode::Heads }, plan),
+        (_, "events") => replay_plan(&Events, plan),
         (_, "forge") => replay_plan(&Forge, plan),
+        (_, "session") => replay_plan(&Session, plan),
         (_, "query") => replay_plan(&QueryScen, plan),
         (_, "actor") => replay_plan(&ActorScen, plan),
         (_, "crash") => replay_plan(&Crash, plan),
@@ -176,6 +182,8 @@ pub fn determinism(prop: Option<&str>, seeds: u64) -> i32 {
     if all || p == "C05" { twice(&QueryScen, seeds, &mut bad); }
     if all || p == "C06" { twice(&Crash, seeds.min(60), &mut bad); }
     if all || p == "C07" { twice(&Docs { mode: DocsMode::Cap }, seeds, &mut bad); }
+    if all || p == "C10" { twice(&Session, seeds, &mut bad); }
+    if all || p == "C12" { twice(&Events, seeds, &mut bad); }
     if all || p == "C14" { twice(&ActorScen, seeds, &mut bad); }
     if all || p == "C15" { twice(&Docs { mode: DocsMode::Policy }, seeds, &mut bad); }
     if all || p == "C16" { twice(&Docs { mode: DocsMode::Remove }, seeds, &mut bad); }
